@@ -45,27 +45,26 @@ pub fn mul_div(a: i32, b: i32, c: i32) -> i32 {
 /// Fixed point multiply and divide without rounding: a * b / c
 ///
 /// Based on <https://gitlab.freedesktop.org/freetype/freetype/-/blob/57617782464411201ce7bbc93b086c1b4d7d84a5/src/base/ftcalc.c#L200>
-pub fn mul_div_no_round(mut a: i32, mut b: i32, mut c: i32) -> i32 {
+pub fn mul_div_no_round(a: i32, b: i32, c: i32) -> i32 {
     let mut s = 1;
     if a < 0 {
-        a = -a;
         s = -1;
     }
     if b < 0 {
-        b = -b;
         s = -s;
     }
     if c < 0 {
-        c = -c;
         s = -s;
     }
+    // Magnitudes as unsigned values: negating i32::MIN would overflow
+    let (a, b, c) = (a.unsigned_abs(), b.unsigned_abs(), c.unsigned_abs());
     let d = if c > 0 {
-        ((a as i64) * (b as i64)) / c as i64
+        ((a as u64) * (b as u64)) / c as u64
     } else {
         0x7FFFFFFF
     };
     if s < 0 {
-        -(d as i32)
+        (d as i32).wrapping_neg()
     } else {
         d as i32
     }
